@@ -64,7 +64,124 @@ def translator_table(ctx, fn):
     return rx, table[0], tmpl, hir
 
 
+def translate(ctx, fn, text):
+    """what a pattern translator (convert_glob_to_pattern / convert_like_to_pattern) makes of `text`, read off its source by the
+    finite interpreter; the regex crate answers by contract through Python's re (the translators' own regexes are alternations
+    of escaped single characters, which mean the same in both dialects)"""
+    import interp
+    import re as _re
+    V = interp.V
+
+    def call(node, recv, args, it, env):
+        callee = str(node.get("callee", ""))
+        m_ = node.get("m")
+        if (callee.endswith("Regex::new") or callee.endswith("RegexBuilder::new")) and args and isinstance(args[0], str):
+            try:
+                _re.compile(args[0])
+            except _re.error as e:
+                raise interp.Undecided("regex literal %r: %s" % (args[0], e))
+            return (V("Result::Ok", [{"__rx": args[0]}]),)
+        if isinstance(recv, dict) and "__rx" in recv and m_ in ("replace_all", "replace") and len(args) == 2 and isinstance(args[0], str):
+            out, pos = [], 0
+            for mt in _re.finditer(recv["__rx"], args[0]):
+                out.append(args[0][pos:mt.start()])
+                caps = {"__cap": {i: mt.group(i) for i in range(0, (mt.re.groups or 0) + 1)}}
+                rep = it.apply(args[1], [caps]) if not isinstance(args[1], str) else args[1]
+                if not isinstance(rep, str):
+                    raise interp.Undecided("replacement %r" % (rep,))
+                out.append(rep)
+                pos = mt.end()
+                if m_ == "replace":
+                    break
+            out.append(args[0][pos:])
+            return ("".join(out),)
+        if isinstance(recv, dict) and "__rx" in recv and m_ == "is_match" and args and isinstance(args[0], str):
+            return (_re.search(recv["__rx"], args[0]) is not None,)
+        if isinstance(recv, dict) and "__cap" in recv and (node.get("k") == "Index" or m_ in ("index",)) and args:
+            g = recv["__cap"].get(args[0])
+            if g is None:
+                raise interp.Undecided("capture group %s absent" % args[0])
+            return (g,)
+        if isinstance(recv, dict) and "__cap" in recv and m_ == "get" and args:
+            g = recv["__cap"].get(args[0])
+            return (interp.some({"__match": g}) if g is not None else interp.NONE,)
+        if isinstance(recv, dict) and "__match" in recv and m_ == "as_str":
+            return (recv["__match"],)
+        if callee.endswith("regex::escape") and args and isinstance(args[0], str):
+            return (_re.sub(r"([\\.+*?()|\[\]{}^$#&\-~])", r"\\\1", args[0]),)
+        if callee.endswith("error_exit"):
+            raise interp.Undecided("the translator gives up on %r (error_exit)" % (text,))
+        return None
+    ps = ctx.prog.fns[fn]["params"]
+    got = interp.Interp(call=call, prog=ctx.prog, max_steps=60000).run(ctx.anchor_hir(fn), {ps[0]["id"]: text})
+    if not isinstance(got, str):
+        raise interp.Undecided("the translator yields %r" % (got,))
+    return got
+
+
+def translators_by_meaning(ctx):
+    """the two translators evaluated on probe patterns, and the regex they produce judged by what it matches (Python's re on the
+    ASCII subset): every character that is not one of the operator's wildcards matches only itself - the regex metacharacters
+    included -, `*` / `%` stand for any run, `?` / `_` for exactly one character, the match is anchored at both ends and ignores
+    letter case.  -> (number of probes, list of problems) or raises interp.Undecided"""
+    import re as _re
+    problems = []
+    n = 0
+    for fn, any_run, one in ((GLOB, "*", "?"), (LIKE, "%", "_")):
+        others = [c for c in "\\.+*?()|[]{}^$%_-,'#~ <>&a\u2014\u20ac" if c not in (any_run, one)]
+        for c in others:
+            pat = "k" + c + "m"
+            rx = translate(ctx, fn, pat)
+            n += 1
+            # the two regex dialects agree on an escaped metacharacter; any other escape (`\<` is a word boundary in the regex crate,
+            # `\d` a class, a backslash before a non-ASCII character an error) is not "this character, literally"
+            odd = [m_.group(0) for m_ in _re.finditer(r"\\(.)", rx, _re.S) if m_.group(1) not in "\\.+*?()|[]{}^$#&-~"]
+            if odd:
+                problems.append("%s(%r) = %r: the escape %s is not an escaped literal character in the regex crate's syntax" % (short(fn, 1), pat, rx, odd[0]))
+                continue
+            try:
+                # (Rust's regex accepts the flag group anywhere, Python's re only in front)
+                cre = _re.compile(rx.replace("(?i)", "", 1), _re.I if "(?i)" in rx else 0)
+            except _re.error as e:
+                problems.append("%s(%r) = %r does not compile: %s" % (short(fn, 1), pat, rx, e))
+                continue
+            yes = [pat, pat.upper()]
+            no = ["km", "kxm", "k" + c + c + "m", "x" + pat, pat + "x", "k" + c]
+            if c.isalpha():
+                no = [x for x in no if x.lower() != pat.lower()]
+            bad = [t for t in yes if not cre.search(t)] + [t for t in no if t.lower() != pat.lower() and cre.search(t)]
+            if bad:
+                problems.append("%s(%r) = %r: the character `%s` must match only itself (whole string, any letter case); wrong on %s" % (short(fn, 1), pat, rx, c, bad[:4]))
+        for pat, yes, no in (("k" + any_run + "m", ["km", "kxm", "kxyzm", "KXM", "k.m"], ["k", "xkm", "kmx", "kx"]),
+                             ("k" + one + "m", ["kxm", "k.m", "KXM"], ["km", "kxym", "xkxm", "kxmx"]),
+                             (any_run + ".txt", ["a.txt", ".txt", "A.TXT"], ["atxt", "a.txtx", "a.tx"]),
+                             (any_run, ["", "anything"], []), (one, ["x"], ["", "xy"])):
+            rx = translate(ctx, fn, pat)
+            n += 1
+            try:
+                # (Rust's regex accepts the flag group anywhere, Python's re only in front)
+                cre = _re.compile(rx.replace("(?i)", "", 1), _re.I if "(?i)" in rx else 0)
+            except _re.error as e:
+                problems.append("%s(%r) = %r does not compile: %s" % (short(fn, 1), pat, rx, e))
+                continue
+            bad = [t for t in yes if not cre.search(t)] + [t for t in no if cre.search(t)]
+            if bad:
+                problems.append("%s(%r) = %r: `%s` stands for any run of characters and `%s` for exactly one, on the whole string; wrong on %s" % (short(fn, 1), pat, rx, any_run, one, bad[:4]))
+    return n, problems
+
+
 def r1(ctx):
+    import interp
+    try:
+        n_ev, problems = translators_by_meaning(ctx)
+        ctx.obligation(not problems)
+        ctx.covered("pattern translators evaluated on probe patterns and judged by what the produced regex matches (each special character, wildcards, anchoring, case)", n_ev,
+                    distinct_keys=[GLOB, LIKE], exhaustive=True)
+        for pr in problems[:6]:
+            ctx.violation("%s/meaning" % ("convert_like_to_pattern" if "like" in pr.split("(")[0] else "convert_glob_to_pattern"), ctx.where(LIKE if "like" in pr.split("(")[0] else GLOB), pr)
+        return
+    except interp.Undecided as e:
+        ctx.note = getattr(ctx, "note", None)      # read the escape tables structurally instead
     for fn in (GLOB, LIKE):
         rx, t, tmpl, hir = translator_table(ctx, fn)
         name = short(fn, 1)
